@@ -37,6 +37,18 @@ claimed = {
   text="Decides structural clauses of the glyph-name statement in MakeGlyphNames, cff.makeNames, makeVariant and PostScriptName: (once) every store of a name into a slot after the used-set exists is control-dependent on an emptiness test of the same slot (existing unique names are kept); (used) every stored name comes from the variant helper or is stored under !used[name] and recorded on the same path, and (variant) the helper records every name it returns (pairwise distinct); (notdef) slot 0 is named .notdef before the used-set is built; (fallback) numbered placeholders fill remaining slots; (mapdet) no name is handed out in map-iteration order ('asking again returns the same names'); (psname) the returned PostScript name is directly ReplaceAllString(family+subfamily, "") with a character class whose complement, computed from the parsed literal, lies inside the PostScript-name alphabet. These hold for every font and every pattern of missing/duplicate names, which tests only sample. Level 'other'.",
   note="Trusted: go/types, go/ssa, regexp/syntax (used only to parse the literal; no library code is executed). Not covered: that inferred names are the right AGL names; installing names (EnsureGlyphNames) beyond determinism. A re-implementation of the sanitiser by other means than a regexp replacement is reported as undecided.",
   ref="DESIGN.md §3 E12, §4 C20"),
+ "C06": dict(
+  technique="static aliasing / typestate / shape rules on the type-checked syntax and go/ssa of the shaping engine",
+  engine="shaperules",
+  text="Decides only structural necessary conditions of the reference-semantics statement (a narrow claim): (slicealias) no re-slice x[:k] is assigned to a different slice variable with both slices subsequently grown by append, in any library function — the matcher's matched-position and skipped-position lists never share a backing array; (firstmatch) applyAt has the shape 'for each subtable in order: next := apply(); if next >= 0 return next; return -1'; (lookuporder) Apply ranges over ctx.lookups in slice order; (scratchclaim/scratchreuse) a slice derived from ctx.scratch escapes into a pushed nested-action record only after ctx.scratch = nil, and the scratch buffer's old contents are never read; (textappend) no append onto an input glyph's Text slice. Breaking any of them corrupts ligature bookkeeping, subtable priority, lookup order, nested positions or attached text for some lookup list. Level 'other'; equality with a reference shaper is value-level and not decided.",
+  note="Trusted: go/types, go/ssa. Not covered: everything value-level — that each apply method implements the OpenType rule for its lookup type, skipping by lookup flags, position fix-ups after insertions/merges, anchor arithmetic.",
+  ref="DESIGN.md §3 E13, §4 C06"),
+ "C07": dict(
+  technique="static typestate and discipline rules on go/ssa (nested-action stack empty on exit, push implies match, scratch claim/release, buffer reset), panic-reachability inventory with closed-set discharge, order-sensitivity analysis",
+  engine="shaperules",
+  text="Decides structural clauses of 'safe, terminating, text-conserving, history-independent': (stackempty) at every return of applyAtRecursively the nested-action stack is empty — unreachable from pushing calls, guarded by the pushing call reporting no match, or dominated by a reset / the loop test — and (pushimplies) no apply method can return -1 after storing to ctx.stack, so a later Apply on the same Context never sees stale actions; (scratchclaim/scratchreuse, bufreset) reusable buffers of Context and Layouter are claimed before they escape and re-used only as buf[:0]; (textappend) text is accumulated in private buffers; (panicreach) every explicit panic / unchecked assertion / map-function call reachable from Apply or Layout is the default of a type switch over a closed set or a reviewed entry with a re-checked side condition (extension subtables resolved by the reader); (mapdet) no dependence on map iteration order. Level 'other'.",
+  note="Trusted: go/types, go/ssa, VTA reachability, effect summaries (to find pushing calls), 2 reviewed entries. Not yet covered here (planned: taintidx/loopterm engines): range guards on lookup/sequence/class/mark-set indices before indexing rule tables, and termination of the scan loop's progress guard; text conservation and output-length bounds beyond the no-append-to-input rule are value-level.",
+  ref="DESIGN.md §4 C07"),
 }
 
 pending_reason = "not claimed yet: the engines this property needs are still being built (DESIGN.md §9 build order); no check is registered until it runs exact on the unchanged tree"
@@ -70,6 +82,7 @@ engines = [
  {"name": "errflow", "path": "sfntlint/errflow.go, sfntlint/c18.go", "serves_properties": ["C18", "C17"], "kind_free_text": "error value-flow and byte-count must-analysis (E7)"},
  {"name": "c15rules", "path": "sfntlint/c15.go, sfntlint/ssahelp.go", "serves_properties": ["C15", "C07"], "kind_free_text": "control-dependence, CFG ordering and buffer-provenance rules"},
  {"name": "nameslots", "path": "sfntlint/c20.go", "serves_properties": ["C20"], "kind_free_text": "write-once / used-set discipline, .notdef ordering, PostScript-name regexp evaluation (E12)"},
+ {"name": "shaperules", "path": "sfntlint/c07.go, sfntlint/c06.go, sfntlint/panicreach.go", "serves_properties": ["C06", "C07"], "kind_free_text": "slice-alias, scratch claim/release, nested-stack typestate, first-match shape, panic reachability (E13, E4, typestate)"},
  {"name": "mapdet", "path": "sfntlint/mapdet.go, sfntlint/props_det.go", "serves_properties": ["C01", "C07", "C08", "C09", "C13", "C15", "C20"], "kind_free_text": "order-sensitivity analysis of map iteration, clock and scheduling sources (E5)"},
 ]
 for e in engines:
